@@ -244,6 +244,16 @@ SEEDS = [
     # elif chains without else whose non-last branches consist of one plain inner if
     "c = 0\nd = 0\nx = 0\ny = 0\nwhile true:\n    c = Bernoulli(1/2)\n    d = Bernoulli(1/2)\n    if c == 1:\n        if d == 1:\n            x = x + 1\n        end\n    elif d == 0:\n        y = y + 2\n    end\nend\n",
     "c = 0\nd = 0\nx = 0\ny = 0\nwhile true:\n    c = DiscreteUniform(0, 2)\n    d = Bernoulli(1/2)\n    if c == 0:\n        if d == 1:\n            x = x + 1\n        end\n    elif c == 1:\n        if d == 0:\n            y = y + 1\n        end\n    elif d == 1:\n        y = y + 3\n    end\nend\n",
+    # two probabilistic choices, the second one assigning the control variable c (generated `_cK` names next to aliases of c)
+    "c = 0\nx = 0\nwhile true:\n    x = x + 1 {1/2} x\n    c = 1 {1/2} 0\nend\n",
+    "c = 0\nx = 0\nwhile true:\n    c = 1 {1/2} 0\n    x = x + c {1/2} x\n    c = 2 {1/4} c\nend\n",
+    # comparisons written with the constant on the left
+    "c = 0\nx = 0\ny = 0\nwhile true:\n    c = DiscreteUniform(0, 2)\n    if 0 < c:\n        x = x + 1\n    end\n    if 2 <= c:\n        y = y + 1\n    elif 1 > c:\n        y = y - 1\n    end\nend\n",
+    "c = 1\nx = 0\nwhile 0 < c:\n    c = Bernoulli(1/2)\n    x = x + 1\nend\n",
+    # Sin/Cos/Exp of the constant 0 (rational values), conditioned / after another assignment / under a guard
+    "c = 0\ny = 0\ns = 0\nwhile true:\n    c = Bernoulli(1/2)\n    y = 3\n    if c == 1:\n        y = Cos(0)\n    end\n    s = y**2\nend\n",
+    "c = 1\ny = 2\ns = 0\nwhile c == 1:\n    c = Bernoulli(1/2)\n    y = y + 1\n    y = Exp(0)\n    s = s + y**2\nend\n",
+    "c = 0\ny = 5\ns = 0\nwhile true:\n    c = DiscreteUniform(0, 2)\n    if c == 0:\n        y = Sin(0)\n    elif c == 1:\n        y = 2\n    end\n    s = s + y**3\nend\n",
     # delayed constant chain (acyclic solver, zero-coefficient chains)
     "x = 0\ny = 0\nwhile true:\n    y = x\n    x = 1\nend\n",
     "x = 0\ny = 0\nz = 0\nwhile true:\n    z = y\n    y = x\n    x = x + 1\nend\n",
